@@ -63,6 +63,10 @@ def _ops():
     q("ObtainQuantity('1000ft3/d','volume flow rate')", lambda db: ObtainQuantity("1000ft3/d", "volume flow rate"), S("volume flow rate", "Mcf/d"))
     q("ObtainQuantity([('m',1)],('length',))", lambda db: ObtainQuantity([("m", 1)], ("length",)), S("length", "m"))
     q("ObtainQuantity([('m',2),('s',-1)],('length','time'))", lambda db: ObtainQuantity([("m", 2), ("s", -1)], ("length", "time")), LT2)
+    q("ObtainQuantity([('m',2)],('length',))", lambda db: ObtainQuantity([("m", 2)], ("length",)), D(("length", "m", 2)))
+    q("ObtainQuantity([('m',1),('s',-1)],('length','time'))", lambda db: ObtainQuantity([("m", 1), ("s", -1)], ("length", "time")), D(("length", "m", 1), ("time", "s", -1)))
+    q("ObtainQuantity(OrderedDict(length:[m,2]))", lambda db: ObtainQuantity(OrderedDict([("length", ["m", 2])])), D(("length", "m", 2)))
+    q("ObtainQuantity(OrderedDict(list values),caption='cap')", lambda db: ObtainQuantity(OrderedDict([("length", ["m", 2]), ("time", ["s", -1])]), unknown_unit_caption="cap"), D(("length", "m", 2), ("time", "s", -1), cap="cap"))
     q("ObtainQuantity(OrderedDict(list values))", lambda db: ObtainQuantity(OrderedDict([("length", ["m", 2]), ("time", ["s", -1])])), LT2)
     q("ObtainQuantity(OrderedDict(tuple values))", lambda db: ObtainQuantity(OrderedDict([("length", ("m", 2)), ("time", ("s", -1))])), LT2)
     q("ObtainQuantity(OrderedDict(length:[m,1]))", lambda db: ObtainQuantity(OrderedDict([("length", ["m", 1])])), S("length", "m"))
@@ -313,8 +317,14 @@ def apply(s, op, part, hist):
             if first is not r:
                 _bad(s, part, hist, op, "repeated request returned a different object", {"quantity": repr(r)})
                 return True
+    if failure is None and op.endswith("[fails]"):
+        _bad(s, part, hist, op, "did not raise", {"returned": repr(r)[:200]})
+        return True
     if failure is not None:
         part.count("failed_operations")
+        if "[fails" not in op:
+            _bad(s, part, hist, op, "raised %s" % type(failure).__name__, {"error": repr(failure)})
+            return True
     part.add("outcomes", (op, type(failure).__name__ if failure is not None else (value_key(results[0][0]) if results and op in OPS_TABLE else "ok")))
     if len(s.tracked) >= 3:
         part.add("nontrivial", explorer.digest(hist + (op,)))
